@@ -100,6 +100,20 @@ fn main() {
             let code = selftest::dump_logs(&args[2..], seed);
             std::process::exit(code);
         }
+        "fidelity" => {
+            // outcome sets of simplify on pseudo-toroidal covers of the first
+            // <n> corpus literals under <reps> key pairs each; with feature
+            // real_entropy the keys are whatever the kernel returns
+            let n: usize = args.get(2).and_then(|s| s.parse().ok()).unwrap_or(20);
+            let reps: usize = args.get(3).and_then(|s| s.parse().ok()).unwrap_or(50);
+            selftest::fidelity(n, reps, seed);
+        }
+        "scan" => {
+            // census of a file of symbol texts: histogram of verdicts and the
+            // lines that pass the invariant filter (corpus curation tool)
+            let code = selftest::scan(&args[2..]);
+            std::process::exit(code);
+        }
         "seam-selftest" => match entropy::selftest() {
             Ok(()) => println!("seam R ok: interposed getrandom controls RandomState"),
             Err(e) => {
